@@ -2,6 +2,8 @@
 
 package pubsub
 
+import "github.com/anyproto/any-sync/net/streampool"
+
 // Verification hook for property C17 (/verif/harness/c17). Add-only, compiled only with
 // `-tags verif`; with the tag off the package is byte-identical to upstream.
 //
@@ -10,6 +12,7 @@ package pubsub
 //
 //	svc.(interface{ VerifCounts() map[string]int })
 //	svc.(interface{ VerifTagStreams(spaceId, pattern string) int })
+//	svc.(interface{ VerifWrapPool(func(streampool.StreamPool) streampool.StreamPool) })
 
 // VerifCounts reports the sizes of every piece of interest bookkeeping the engine
 // holds: the serving-side space tries (patterns, refcounts, allocated nodes), the
@@ -85,4 +88,12 @@ func verifCountLevel(l *trieLevel) (nodes, refs int) {
 // VerifTagStreams returns len(pool.Streams(tag)) for the routing tag of (spaceId, pattern).
 func (s *service) VerifTagStreams(spaceId, pattern string) int {
 	return len(s.pool.Streams(interestTag(spaceId, pattern)))
+}
+
+// VerifWrapPool lets the harness interpose on the calls the engine makes to its private
+// pool (e.g. park a subscribe exactly at AddTagsCtx to schedule a close / evict / close-space
+// into the window between "interest recorded" and "tags registered"). Call it right after
+// the app has started, before any stream exists.
+func (s *service) VerifWrapPool(wrap func(streampool.StreamPool) streampool.StreamPool) {
+	s.pool = wrap(s.pool)
 }
